@@ -389,6 +389,44 @@ def run_fix_laws(sp, enc, col, emit, rnd, model, max_vars=6):
             info = D.exc_info(e)
             emit('fix_exception', {'stage': 'after_free', 'exc': info, 'enc': enc},
                  where={'exc': info['type'], 'site': info['site'], 'stage': 'after_free'})
+    # two variables fixed at the same time, in both orders of fixing: every design of the un-fixed enumeration in which
+    # both are active at the fixed values is decoded by the restricted problem (reduced vector) to the same architecture
+    disc = [i for i in fx if P.all_dvs[i].is_discrete]
+    if E is not None and len(disc) >= 2:
+        for rep in range(2):
+            i, j = sorted(rnd.sample(disc, 2))
+            both = [(r, a) for r, a in E if a[i] and a[j]]
+            if not both:
+                continue
+            r0, _a0 = both[rnd.randrange(len(both))]
+            vi, vj = int(r0[i]), int(r0[j])
+            for order in ((j, vj, i, vi), (i, vi, j, vj)):
+                col.count('monitor_two_fix_evaluations')
+                try:
+                    P.fix(order[0], order[1])
+                    P.fix(order[2], order[3])
+                    for r, a in [ra for ra in both if int(ra[0][i]) == vi and int(ra[0][j]) == vj][:12]:
+                        red = [x_ for k_, x_ in enumerate(r) if k_ not in (i, j)]
+                        want, _g = F.decode(list(r), True, model)
+                        got, _g2 = P.decode(red, rnd.random() < .5, model)
+                        if got['x'] != [x_ for k_, x_ in enumerate(want['x']) if k_ not in (i, j)] or \
+                                ('arch' in got and got['arch'] != want['arch']):
+                            emit('fixed_decode_outside_subset',
+                                 {'vars': [P.all_dvs[i].name, P.all_dvs[j].name], 'values': [vi, vj],
+                                  'fixed_in_order': [P.all_dvs[order[0]].name, P.all_dvs[order[2]].name],
+                                  'x': red, 'restricted': got, 'unfixed': want, 'enc': enc},
+                                 where={'two_fixed': True})
+                            break
+                except Exception as e:  # noqa
+                    info = D.exc_info(e)
+                    emit('fix_exception', {'stage': 'two_fixed', 'exc': info, 'enc': enc},
+                         where={'exc': info['type'], 'site': info['site'], 'stage': 'two_fixed'})
+                finally:
+                    for k_ in (i, j):
+                        try:
+                            P.free(k_)
+                        except Exception:  # noqa
+                            pass
     # rejections
     for i, dv in enumerate(P.all_dvs):
         before = (dict(P.gp.fixed_values), [d.name for d in P.gp.des_vars])
